@@ -143,9 +143,24 @@ def run(ck):
     d = ('SPECIFICATION Spec\nCONSTANTS Radii <- RadiiA\n Phis <- PhisA\n Ths <- ThsAll\n Dls <- %s\n Centers <- CentersB\n SmallH <- SmallA\n SmallR <- SmallRA\n'
          'CONSTRAINT AtStart\nINVARIANT Dump\n') % ('DlsSome' if quick else 'DlsAll')
     ck.tlc('ArcLattice', d, workers=1, coverage=False, on_case=on_arc, timeout=3000)
+    # generic cubics and quadratics with larger integer (and half-integer) control values: turning points anywhere in (0,1), also two in one half of it
+    gen = [[0, 1.5, -14.5, 52], [52, -14.5, 1.5, 0], [0, 30, -29, 3], [5, -40, 38, 6]]
+    grnd = random.Random(ck.seed + 8)
+    for it in range(120 if quick else 1500):
+        gen.append([grnd.randint(-60, 60) / (2.0 if it % 3 == 0 else 1.0) for _ in range(grnd.choice([3, 4, 4]))])
+    for it, xs_ in enumerate(gen):
+        ys_ = [grnd.randint(-60, 60) for _ in xs_]
+        for sgz in ([complex(a_, b_) for a_, b_ in zip(xs_, ys_)], [complex(b_, a_) for a_, b_ in zip(xs_, ys_)]):
+            if len(set(sgz)) < 2:
+                continue
+            sgen = make(sgz)
+            ck.case(fp=('generic-box', str(sgz)), nontrivial=True)
+            witness_check(ck, sgen, 'generic', {'z': [str(w) for w in sgz]}, n=1024)
     # paths: union of the segments' boxes
     pool = [sp.Line(0j, 3 + 4j), sp.QuadraticBezier(3 + 4j, 8 + 9j, 5 + 0j), sp.CubicBezier(5 + 0j, 1 - 6j, 9 - 6j, 6 + 1j),
-            sp.Arc(6 + 1j, 3 + 2j, 30, True, False, 2 + 2j), sp.Line(-7 + 2j, -7 - 3j), sp.CubicBezier(0j, 0j, 3 + 3j, -3 + 3j)]
+            sp.Arc(6 + 1j, 3 + 2j, 30, True, False, 2 + 2j), sp.Line(-7 + 2j, -7 - 3j), sp.CubicBezier(0j, 0j, 3 + 3j, -3 + 3j),
+            # members that return to their own start (a loop, a hair-pin): they have extent
+            sp.CubicBezier(10 + 0j, 40 + 30j, 40 - 30j, 10 + 0j), sp.QuadraticBezier(-2 + 1j, -2 + 12j, -2 + 1j), sp.Line(1 + 1j, 1 + 1j)]
     for it in range(60 if quick else 400):
         segs = [rnd.choice(pool) for _ in range(rnd.randint(1, 5))]
         p = sp.Path(*segs)
